@@ -612,12 +612,9 @@ class Subscription(BaseSubscription):
         return filter_obj
 
     def build_query(self, filters):
-        select = """
-            SELECT id, created_at, kind, pubkey, tags, sig, content FROM events
-        """
-        where = set()
+        select = "SELECT id, created_at, kind, pubkey, tags, sig, content FROM events"
+        subqueries = []
         params = {}
-        limit = None
         new_filters = []
         for filter_obj in filters:
             subwhere = []
@@ -627,24 +624,32 @@ class Subscription(BaseSubscription):
                 self.log.debug("bad query %s", filter_obj)
                 filter_obj = NostrQuery()
                 subwhere = []
-            if subwhere:
-                subwhere = " AND ".join(subwhere)
-                where.add(subwhere)
-            else:
-                where.add("false")
-            if filter_obj.limit:
-                limit = min(filter_obj.limit, self.default_limit)
             new_filters.append(filter_obj)
-        if where:
-            select += " WHERE (\n\t"
-            select += "\n) OR (\n".join(where)
-            select += ")"
-        if limit is None:
-            limit = self.default_limit
-        select += f"""
+            if not subwhere:
+                # nothing to search for
+                continue
+            # every filter has its own limit
+            if filter_obj.limit is None:
+                limit = self.default_limit
+            else:
+                limit = min(filter_obj.limit, self.default_limit)
+            subquery = f"""
+            {select} WHERE {" AND ".join(subwhere)}
             ORDER BY created_at DESC
             LIMIT {limit}
-        """
+            """
+            if subquery not in subqueries:
+                subqueries.append(subquery)
+        if not subqueries:
+            select = f"{select} WHERE false"
+        elif len(subqueries) == 1:
+            select = subqueries[0]
+        else:
+            select = "\nUNION\n".join(
+                f"SELECT * FROM ({subquery}) AS filter{i}"
+                for i, subquery in enumerate(subqueries)
+            )
+            select += "\nORDER BY created_at DESC"
         query = sa.text(select)
         if params:
             query = query.bindparams(**params)
